@@ -114,6 +114,25 @@ theorem gen_min_spec (v : Array α) (h : v.size ≠ 0) : ∃ m, esl_vec_IMin v v
 
 end order
 
+/-! ## the subtraction idiom `return x1 - x2;` (what the translator emits for it: `CWrap.toCInt (CWrap.wsub x1 x2)`)
+    It is the difference of the values exactly inside a 2^31-wide window, and has the wrong sign / is zero outside it: a comparator
+    written that way breaks `cmp_incr_spec`, and with it every `Sort*` theorem. -/
+theorem sub_idiom_window_int (a b : Int32) (h : -2147483648 ≤ a.toInt - b.toInt ∧ a.toInt - b.toInt ≤ 2147483647) :
+    CWrap.toCInt (CWrap.wsub a b) = a.toInt - b.toInt := by
+  show (a - b).toInt = _
+  rw [Int32.toInt_sub]
+  simp only [Int.bmod_def]
+  omega
+theorem sub_idiom_window_int64 (a b : Int64) (h : -2147483648 ≤ a.toInt - b.toInt ∧ a.toInt - b.toInt ≤ 2147483647) :
+    CWrap.toCInt (CWrap.wsub a b) = a.toInt - b.toInt := by
+  show (a - b).toInt32.toInt = _
+  have ha := a.toInt_lt; have hb := b.toInt_lt; have ha' := a.le_toInt; have hb' := b.le_toInt
+  rw [Int64.toInt_toInt32, Int64.toInt_sub]
+  simp only [Int.bmod_def]
+  omega
+theorem sub_idiom_wrong_int : ∃ a b : Int32, a < b ∧ 0 < CWrap.toCInt (CWrap.wsub a b) := ⟨-2000000000, 2000000000, by decide, by decide⟩
+theorem sub_idiom_wrong_int64 : ∃ a b : Int64, a < b ∧ CWrap.toCInt (CWrap.wsub a b) = 0 := ⟨0, 4294967296, by decide, by decide⟩
+
 /-- entries further apart than 2^31: the comparator is still right (the subtraction idiom `x1 - x2` is not) -/
 example : qsort_IIncreasing (-2000000000 : Int32) (2000000000 : Int32) = -1 := by decide
 example : qsort_LIncreasing (0 : Int64) (4294967296 : Int64) = -1 := by decide
